@@ -102,7 +102,15 @@ def from_decimal(ip, num, k):
 
 
 def to_int(ip, x):
-    raise Unsupported('int(float)')
+    """int(x) for a double: truncation toward zero (exact on the real value the double denotes)"""
+    ctx = ip.ctx
+    t, exact = as_real(x)
+    if exact is not None:
+        return int(exact)
+    r = ctx.fresh_int('trunc')
+    rr = z3.ToReal(r)
+    ctx.fact(z3.If(t >= 0, z3.And(rr <= t, t < rr + 1), z3.And(rr - 1 < t, t <= rr)))
+    return SInt(r)
 
 
 def round_(ip, args, kwargs):
